@@ -569,18 +569,20 @@ class StmtMixin(object):
             if isinstance(sub, ast.If):
                 if not (isinstance(sub.test, ast.Name) and sub.test.id in aliases_pre and not sub.orelse):
                     raise Undecided("broadcast loop body has a condition")
-        if len(calls) != 1:
-            raise Undecided("broadcast loop body must contain exactly one call")
-        mname, call = calls[0]
-        cid, expect = spec.broadcast
-        if expect is not None and mname != expect:
-            raise Undecided("broadcast loop calls %s, contract expects %s" % (mname, expect))
-        for a in list(call.args) + [k.value for k in call.keywords]:
-            for n2 in ast.walk(a):
-                if isinstance(n2, ast.Name) and (n2.id == var or n2.id in aliases):
-                    raise Undecided("broadcast argument depends on the loop variable")
-        st, args, kwargs = self.eval_args(call, st, acc)
-        st, _ = self.apply_contract(st, acc, self.get_contract(cid), None, None, args, kwargs, node)
+        plan = spec.broadcast if isinstance(spec.broadcast, list) else [spec.broadcast]
+        if len(calls) != len(plan):
+            raise Undecided("broadcast loop body must contain exactly %d call(s)" % len(plan))
+        calls.sort(key=lambda c: (c[1].lineno, c[1].col_offset))
+        for (mname, call), (cid, expect) in zip(calls, plan):
+            if expect is not None and mname != expect:
+                raise Undecided("broadcast loop calls %s, contract expects %s" % (mname, expect))
+            for a in list(call.args) + [k.value for k in call.keywords]:
+                for n2 in ast.walk(a):
+                    if isinstance(n2, ast.Name) and (n2.id == var or n2.id in aliases):
+                        raise Undecided("broadcast argument depends on the loop variable")
+        for (mname, call), (cid, expect) in zip(calls, plan):
+            st, args, kwargs = self.eval_args(call, st, acc)
+            st, _ = self.apply_contract(st, acc, self.get_contract(cid), None, None, args, kwargs, node)
         st.env.pop(var, None)
         for a in aliases:
             st.env.pop(a, None)
@@ -683,6 +685,13 @@ class StmtMixin(object):
                     env["_seq"] = seqv
                 env["_at"] = SV(None, "callable", py=("elem_at", elem_at))
             return env
+        # loop-local ghost variables (witnesses; exist only in the contract)
+        lghost = dict(spec.ghost) if spec is not None else {}
+        for gname, (init, _upd) in sorted(lghost.items()):
+            v, facts = self.spec_value(init, st, inv_env(st, z3.IntVal(0)), old=self.spec_entry())
+            for f in facts:
+                st.assume(f)
+            st.env[gname] = v
         # 1. invariant holds on entry
         for label, text in invs:
             goal, facts = self.spec_formula(text, st, inv_env(st, z3.IntVal(0)), old=self.spec_entry())
@@ -694,6 +703,7 @@ class StmtMixin(object):
         names = _assigned_names(node.body)
         if is_for:
             names |= _target_names(node.target)
+        names |= set(lghost)
         h = st
         for name in sorted(names):
             cur = h.env.get(name)
@@ -770,6 +780,18 @@ class StmtMixin(object):
         if ends:
             e = self.merge(ends)
             nxt = (zi + 1) if is_for else None
+            if lghost:
+                self.iter_start_stack.append(iter_start)
+                try:
+                    newvals = {}
+                    for gname, (_init, upd) in sorted(lghost.items()):
+                        v, facts = self.spec_value(upd, e, inv_env(e, zi), old=self.spec_entry())
+                        for f in facts:
+                            e.assume(f)
+                        newvals[gname] = v
+                    e.env.update(newvals)
+                finally:
+                    self.iter_start_stack.pop()
             for label, text in invs:
                 goal, facts = self.spec_formula(text, e, inv_env(e, nxt), old=self.spec_entry())
                 s2 = e.copy()
@@ -1118,7 +1140,13 @@ class StmtMixin(object):
         tmp, body = self.eval(lam.body, tmp, acc)
         t = self.truthy(body, tmp)
         # side facts (typing of what the body reads) are dropped: their polarity is unknown here
-        q = z3.ForAll(zs, t) if is_forall else z3.Exists(zs, t)
+        pats = auto_patterns(zs, t)
+        import re as _re
+        qid = "q_" + _re.sub(r"[^A-Za-z0-9_]+", "_", ast.unparse(lam.body))[:60]
+        if pats:
+            q = z3.ForAll(zs, t, patterns=pats, qid=qid) if is_forall else z3.Exists(zs, t, patterns=pats, qid=qid)
+        else:
+            q = z3.ForAll(zs, t, qid=qid) if is_forall else z3.Exists(zs, t, qid=qid)
         return st, self.mk_bool(q)
 
     def spec_forall_val(self, node, st, acc):
@@ -1233,13 +1261,31 @@ class StmtMixin(object):
         f = self.u.uf(name, *([self.u.Val] * len(zs) + [self.u.Bool]))
         return st, self.mk_bool(f(*zs))
 
+    def spec_field_of(self, node, st, acc):
+        """field_of(r, 'field'[, 'Class']): heap read at a quantified reference r (an int)."""
+        st, r = self.eval(node.args[0], st, acc)
+        f = ast.literal_eval(node.args[1])
+        cls = ast.literal_eval(node.args[2]) if len(node.args) > 2 else None
+        z = self.heap_array(st, f)[self.as_int(r)]
+        t = self.field_type(cls, f) if cls else None
+        return st, self.typed(z, t)
+
+    def spec_ref_of(self, node, st, acc):
+        st, v = self.eval(node.args[0], st, acc)
+        return st, self.mk_int(self.u.r(v.z))
+
     def spec_unchanged(self, node, st, acc):
         """unchanged('field'): the field has its old value for every object."""
         f = ast.literal_eval(node.args[0])
         old = self.spec_old_state
         if old is None:
             raise Undecided("unchanged() without old state")
-        return st, self.mk_bool(self.heap_array(st, f) == self.heap_array(old[0], f))
+        new_a, old_a = self.heap_array(st, f), self.heap_array(old[0], f)
+        if new_a.eq(old_a):
+            return st, self.mk_bool(z3.BoolVal(True))
+        # pointwise (no array equality: extensionality reasoning is expensive)
+        r = self.u.fresh_int("r")
+        return st, self.mk_bool(_forall_pat([r], new_a[r] == old_a[r], new_a[r], old_a[r]))
 
     def spec_unchanged_except(self, node, st, acc):
         """unchanged_except('field', obj): every object other than obj keeps the field."""
@@ -1250,8 +1296,11 @@ class StmtMixin(object):
             raise Undecided("unchanged_except() without old state")
         st, obj = self.eval(node.args[1], st, acc)
         r = u.fresh_int("r")
-        return st, self.mk_bool(z3.ForAll([r], z3.Or(u.R(r) == obj.z,
-                                                      self.heap_array(st, f)[r] == self.heap_array(old[0], f)[r])))
+        new_a, old_a = self.heap_array(st, f), self.heap_array(old[0], f)
+        if new_a.eq(old_a):
+            return st, self.mk_bool(z3.BoolVal(True))
+        body = z3.Or(r == u.r(obj.z), new_a[r] == old_a[r])
+        return st, self.mk_bool(_forall_pat([r], body, new_a[r], old_a[r]))
 
     def spec_unchanged_outside(self, node, st, acc):
         """unchanged_outside('field', seq): objects that are not elements of seq keep the field."""
@@ -1266,7 +1315,10 @@ class StmtMixin(object):
         n = self.seq_len(old[0], seq)
         el = self.seq_elems(old[0], seq)
         member = z3.Exists([k], z3.And(0 <= k, k < n, el(k) == u.R(r)))
-        return st, self.mk_bool(z3.ForAll([r], z3.Or(member, self.heap_array(st, f)[r] == self.heap_array(old[0], f)[r])))
+        new_a, old_a = self.heap_array(st, f), self.heap_array(old[0], f)
+        if new_a.eq(old_a):
+            return st, self.mk_bool(z3.BoolVal(True))
+        return st, self.mk_bool(_forall_pat([r], z3.Or(member, new_a[r] == old_a[r]), new_a[r], old_a[r]))
 
     def spec_str_in(self, node, st, acc):
         st, a = self.eval(node.args[0], st, acc)
@@ -1293,12 +1345,104 @@ class StmtMixin(object):
         return st, v
 
     loop_entry_stack = []
+    iter_start_stack = []
+
+    def spec_at_start(self, node, st, acc):
+        """at_start(e): value of e when the current iteration started (ghost updates only)."""
+        if not self.iter_start_stack:
+            raise Undecided("at_start() outside a ghost update")
+        es = self.iter_start_stack[-1]
+        tmp = es.copy()
+        tmp.env = dict(es.env)
+        _, v = self.eval(node.args[0], tmp, acc)
+        return st, v
 
     def spec_ite(self, node, st, acc):
         st, c = self.eval(node.args[0], st, acc)
         st, a = self.eval(node.args[1], st, acc)
         st, b = self.eval(node.args[2], st, acc)
         return st, self.merge_sv_pair(self.truthy(c, st), a, b)
+
+
+def _forall_pat(vs, body, *cands):
+    """ForAll with the first candidate pattern z3 accepts (array constants only), else inferred."""
+    for c in cands:
+        try:
+            if z3.is_const(c.arg(0)):
+                return z3.ForAll(vs, body, patterns=[c])
+        except Exception:
+            pass
+    return z3.ForAll(vs, body)
+
+
+def auto_patterns(zs, body):
+    """Patterns for a contract-language quantifier: array reads / uninterpreted applications whose
+    argument is exactly a bound variable (e.g. status[r], at[xs][k], G_ev_kind[k]).  Each candidate
+    that covers all bound variables is an alternative single pattern; otherwise one multi-pattern
+    covering all variables is built.  Returns [] when nothing suitable exists (z3 infers)."""
+    ids = {z.get_id(): i for i, z in enumerate(zs)}
+    cands = []          # (term, frozenset(var indices))
+    seen = set()
+    stack = [body]
+    while stack:
+        t = stack.pop()
+        i = t.get_id()
+        if i in seen:
+            continue
+        seen.add(i)
+        if z3.is_quantifier(t):
+            continue
+        if z3.is_app(t):
+            ch = t.children()
+            k = t.decl().kind()
+            if k in (z3.Z3_OP_SELECT, z3.Z3_OP_UNINTERPRETED) and ch:
+                direct = [ids[c.get_id()] for c in ch if c.get_id() in ids]
+                if direct:
+                    vs = set()
+                    sub = [t]
+                    ok = True
+                    sseen = set()
+                    while sub:
+                        x = sub.pop()
+                        if x.get_id() in sseen:
+                            continue
+                        sseen.add(x.get_id())
+                        if x.get_id() in ids:
+                            vs.add(ids[x.get_id()])
+                        elif z3.is_app(x):
+                            kk = x.decl().kind()
+                            if kk in (z3.Z3_OP_ADD, z3.Z3_OP_SUB, z3.Z3_OP_MUL, z3.Z3_OP_ITE, z3.Z3_OP_EQ, z3.Z3_OP_STORE,
+                                      z3.Z3_OP_CONST_ARRAY, z3.Z3_OP_DT_CONSTRUCTOR,
+                                      z3.Z3_OP_LE, z3.Z3_OP_LT, z3.Z3_OP_GE, z3.Z3_OP_GT, z3.Z3_OP_AND,
+                                      z3.Z3_OP_OR, z3.Z3_OP_NOT, z3.Z3_OP_IMPLIES):
+                                ok = False
+                                break
+                            sub.extend(x.children())
+                        elif z3.is_quantifier(x):
+                            ok = False
+                            break
+                    if ok and vs:
+                        cands.append((t, frozenset(vs)))
+            stack.extend(ch)
+    allv = frozenset(range(len(zs)))
+    full = [t for t, vs in cands if vs == allv]
+    if full:
+        # at most a handful of alternatives
+        uniq = []
+        for t in full:
+            if not any(t.eq(u) for u in uniq):
+                uniq.append(t)
+        return uniq[:6]
+    if len(zs) > 1 and cands:
+        chosen = []
+        covered = set()
+        for t, vs in cands:
+            if not vs <= covered:
+                chosen.append(t)
+                covered |= vs
+            if covered == set(allv):
+                return [z3.MultiPattern(*chosen)]
+    return []
 
 
 def _spec_old_call(self, node, st, acc):
